@@ -121,6 +121,13 @@ def identifier_scripts(name):
          'repeat 2 with {0} cycle 0 begin println {0} end'.format(name),
          [1, 2, 0, 180]),
     ]
+    # usable as a parameter or local also when a routine of that name exists
+    scripts.append((
+        'parameter-hiding-routine',
+        'define {0} begin println 9 return 3 end '
+        'define q_r with {0} begin println {0} assign q_v {0} '
+        'return {0} end println [q_r 5] println [{0}]'.format(name),
+        [5, 5, 9, 3]))
     swapped = name.swapcase()
     if swapped != name and usable(swapped):
         scripts.append((
